@@ -1,6 +1,7 @@
 import BtcwVerif.Model.Crypto
 -- engine: crypto
 import Driver.Proto
+import Std.Data.HashSet
 open Proto Crypto
 
 /-! Driver for the `Crypto` model (C17), instantiated with the toy AEAD/KDF. Real nonces, salts and keys are
@@ -108,6 +109,11 @@ def keyState (cur orig : Bytes) : String :=
 def findSk (st : St) (id : Nat) : Option SkEnt := st.sks.find? (·.id == id)
 def putSk (st : St) (e : SkEnt) : St := { st with sks := e :: st.sks.filter (·.id != e.id) }
 
+/-- number of distinct elements of `(List.range total).map f`, computed one element at a time (nothing but the
+packed results is kept alive: 10⁶ ciphertexts as `List UInt8` would be gigabytes). -/
+def countDistinctRange (total : Nat) (f : Nat → Bytes) : Nat :=
+  (Nat.fold total (fun i _ (s : Std.HashSet ByteArray) => s.insert (f i).toByteArray) {}).size
+
 def showParams (p : Params) : String :=
   s!"N={p.N} R={p.R} P={p.P}"
 
@@ -122,6 +128,20 @@ def step (st : St) (line : String) : St × String :=
       let c := encryptWith A (Toy.nonceOfId st.nonce) k pt
       ({ st with cts := st.cts.push (c, pt), nonce := st.nonce + 1 }, s!"ok ct={st.cts.size} len={c.length}")
     | _, _, _ => (st, "bad-op")
+  | "encpar" :: r =>
+    -- g goroutines × per concurrent encryptions of one plaintext under one key: the model's answer is
+    -- `encryptMany` over the nonces drawn (toy nonces st.nonce … st.nonce+total-1, pairwise distinct), whose
+    -- ciphertexts are computed and counted here, not assumed: `C17_fresh_many` says the count is `total` for every schedule.
+    match (kv r "k").bind keyOf, natKV r "len", natKV r "pat", natKV r "g", natKV r "per" with
+    | some k, some len, some pat, some g, some per =>
+      if g < 1 || g > 64 || per < 1 || per > 100000 || g * per > 1000000 || len > 4096 then (st, "bad-op") else
+      let total := g * per
+      let pt := plain len pat
+      -- element i of `encryptMany A k pt ((List.range total).map fun i => Toy.nonceOfId (st.nonce + i))`
+      -- (`Crypto.encryptMany_eq_map`)
+      let ct := fun i => encryptWith A (Toy.nonceOfId (st.nonce + i)) k pt
+      ({ st with nonce := st.nonce + total }, s!"ok n={total} distinct={countDistinctRange total ct}")
+    | _, _, _, _, _ => (st, "bad-op")
   | "dec" :: r =>
     match (kv r "k").bind keyOf, (natKV r "ct").bind (st.cts[·]?) with
     | some k, some (c, pt) =>
